@@ -277,7 +277,8 @@ def reload_cases(tier, seed):
                     s.config(new, valid=True)
                     if not failing:
                         cfg = new
-                s.write(3, wc.CFG_PATH)
+                # (rewritten by the editor - then the configuration file itself is queued - or by another program)
+                s.write(rng.choice([3, 9]), wc.CFG_PATH)
                 s.dump()
                 if loader_pending and rng.random() < 0.7:
                     s.exec(3, wc.X + "/ld.so")
